@@ -1,5 +1,869 @@
-//! C17 — placeholder, implemented by a dedicated module author.
-use vkit::{Args, Reporter};
-pub async fn run(_args: &Args, rep: &mut Reporter) {
-    rep.inconclusive("c17 not implemented yet");
+//! C17 — external file blobs are content-addressed and follow their secret.
+//!
+//! Device 1 is a `NetworkAccount` talking real HTTP to an in-process
+//! server; it performs generated histories of file-secret operations
+//! (create from a temp file, `update_file`, move between folders, delete
+//! secret, delete folder). After EVERY operation, on device 1:
+//!   blobs on disk == `FileReducer::reduce(None)` of its file log
+//!                 == the blobs named by the live file secrets (model),
+//!   every blob's sha256 == its name, and `download_file` (decrypt) gives
+//!   back the original bytes.
+//! At generated sync points and at the end the background transfers are
+//! left to settle (bounded polling of the inflight set and of the
+//! notification tallies; running out of polls => *inconclusive*) and the
+//! same equality is checked on the server's files directory and on device 2
+//! (a second `NetworkAccount` on a copy of the account taken BEFORE the file
+//! operations, synced at those points).
+//!
+//! Upload endpoint, driven directly: a correct body is stored under its
+//! name; altered / truncated / empty / extended bodies are refused and leave
+//! neither the file nor an `.upload` temp file; while a harness-paced
+//! upload is in flight a GET of the same name and a file comparison never
+//! expose the partial file; an aborted upload leaves nothing behind.
+use crate::http::{self, Access, RawReq, TestServer};
+use serde_json::{json, Value};
+use sos_account::Account;
+use sos_client_storage::{AccessOptions, NewFolderOptions};
+use sos_core::{AccountId, ExternalFile, ExternalFileName, SecretId, SecretPath, VaultId};
+use sos_net::{InflightNotification, NetworkAccount};
+use sos_protocol::transfer::{FileSet, FileTransfersSet};
+use sos_protocol::{AccountSync, WireEncodeDecode};
+use sos_sync::StorageEventLogs;
+use sos_vault::secret::{FileContent, Secret, SecretMeta};
+use std::collections::{BTreeMap, BTreeSet};
+use std::path::{Path, PathBuf};
+use std::sync::atomic::{AtomicBool, AtomicU64, Ordering};
+use std::sync::{Arc, Mutex as StdMutex};
+use std::time::{Duration, Instant};
+use vkit::{Args, Fnv, Reporter, Rng};
+use vmodel::setup::{self, Backend, Pristine};
+
+const V1: &str = "/api/v1";
+const WAIT: Duration = Duration::from_secs(30);
+type Key = (String, String, String);
+
+fn key_of(f: &ExternalFile) -> Key {
+    (f.vault_id().to_string(), f.secret_id().to_string(), f.file_name().to_string())
+}
+
+// ---------------------------------------------------------------- listings
+
+#[derive(Default, Debug)]
+struct Listing {
+    blobs: BTreeMap<Key, PathBuf>,
+    strays: Vec<String>,
+}
+
+fn list_blobs(files_dir: &Path) -> Listing {
+    let mut out = Listing::default();
+    let Ok(l1) = std::fs::read_dir(files_dir) else { return out };
+    for v in l1.flatten() {
+        let vp = v.path();
+        let vn = v.file_name().to_string_lossy().to_string();
+        if !vp.is_dir() {
+            out.strays.push(vn);
+            continue;
+        }
+        for s in std::fs::read_dir(&vp).into_iter().flatten().flatten() {
+            let sp = s.path();
+            let sn = s.file_name().to_string_lossy().to_string();
+            if !sp.is_dir() {
+                out.strays.push(format!("{vn}/{sn}"));
+                continue;
+            }
+            for f in std::fs::read_dir(&sp).into_iter().flatten().flatten() {
+                let fp = f.path();
+                let fname = f.file_name().to_string_lossy().to_string();
+                let is_name = fname.len() == 64 && fname.bytes().all(|b| b.is_ascii_hexdigit());
+                if fp.is_file() && is_name && vn.parse::<VaultId>().is_ok() && sn.parse::<SecretId>().is_ok() {
+                    out.blobs.insert((vn.clone(), sn.clone(), fname), fp);
+                } else {
+                    out.strays.push(format!("{vn}/{sn}/{fname}"));
+                }
+            }
+        }
+    }
+    out
+}
+
+/// Compare one place's blobs with an expected set; returns true when equal.
+fn judge_listing(rep: &mut Reporter, place: &str, against: &str, listing: &Listing, expected: &BTreeSet<Key>, ctx: &Value, report: bool) -> bool {
+    let have: BTreeSet<Key> = listing.blobs.keys().cloned().collect();
+    let missing: Vec<&Key> = expected.difference(&have).collect();
+    let leftover: Vec<&Key> = have.difference(expected).collect();
+    let ok = missing.is_empty() && leftover.is_empty() && listing.strays.is_empty();
+    if !report {
+        return ok;
+    }
+    rep.count(&format!("set_checks:{place}"), 1);
+    if !missing.is_empty() {
+        rep.violation(&format!("C17:blobs_vs_{against}:{place}:missing_blob"), &format!("{place}: {} blob(s) named by the {against} are not on disk: {:?}", missing.len(), &missing[..missing.len().min(4)]), ctx.clone());
+    }
+    if !leftover.is_empty() {
+        rep.violation(&format!("C17:blobs_vs_{against}:{place}:leftover_blob"), &format!("{place}: {} blob(s) on disk are not named by the {against} (left behind): {:?}", leftover.len(), &leftover[..leftover.len().min(4)]), ctx.clone());
+    }
+    if !listing.strays.is_empty() {
+        rep.violation(&format!("C17:blobs_dir:{place}:stray_file"), &format!("{place}: files that are not blobs in the files directory: {:?}", &listing.strays[..listing.strays.len().min(6)]), ctx.clone());
+    }
+    ok
+}
+
+fn judge_names(rep: &mut Reporter, place: &str, listing: &Listing, ctx: &Value) {
+    for (k, p) in &listing.blobs {
+        rep.count("blob_hash_checks", 1);
+        match std::fs::read(p) {
+            Ok(b) => {
+                if hex::encode(vkit::sha256(&b)) != k.2 {
+                    rep.violation(&format!("C17:blob_name_vs_sha256:{place}"), &format!("{place}: blob {}/{}/{} ({} bytes) does not hash to its name", k.0, k.1, k.2, b.len()), ctx.clone());
+                }
+            }
+            Err(e) => rep.violation(&format!("C17:blob_unreadable:{place}"), &format!("{place}: blob {k:?}: {e}"), ctx.clone()),
+        }
+    }
+}
+
+// ------------------------------------------------------------------ devices
+
+#[derive(Default)]
+struct Tally {
+    added: AtomicU64,
+    done: AtomicU64,
+    errors: AtomicU64,
+    retries: AtomicU64,
+    last_ms: AtomicU64,
+    lagged: AtomicBool,
+    reasons: StdMutex<BTreeMap<String, u64>>,
+}
+
+struct Dev {
+    name: &'static str,
+    account: NetworkAccount,
+    target: sos_backend::BackendTarget,
+    tally: Arc<Tally>,
+    epoch: Instant,
+}
+
+impl Dev {
+    async fn open(name: &'static str, p: &Pristine, dir: &Path, origin: &sos_core::Origin) -> anyhow::Result<Dev> {
+        let _ = std::fs::remove_dir_all(dir);
+        setup::copy_dir(&p.dir, dir)?;
+        let target = setup::target_for(dir, p.config.backend).await?;
+        let mut account = NetworkAccount::new_unauthenticated(p.account_id, target.clone(), Default::default()).await?;
+        account.set_connection_id(Some(name.to_string()));
+        account.sign_in(&setup::key_of(&p.password)).await?;
+        let tally = Arc::new(Tally::default());
+        let epoch = Instant::now();
+        {
+            let inflight = account.inflight_transfers()?;
+            let mut rx = inflight.notifications().subscribe();
+            let t = tally.clone();
+            tokio::spawn(async move {
+                loop {
+                    match rx.recv().await {
+                        Ok(ev) => {
+                            t.last_ms.store(epoch.elapsed().as_millis() as u64, Ordering::SeqCst);
+                            match ev {
+                                InflightNotification::TransferAdded { .. } => {
+                                    t.added.fetch_add(1, Ordering::SeqCst);
+                                }
+                                InflightNotification::TransferDone { .. } => {
+                                    t.done.fetch_add(1, Ordering::SeqCst);
+                                }
+                                InflightNotification::TransferError { reason, .. } => {
+                                    t.errors.fetch_add(1, Ordering::SeqCst);
+                                    *t.reasons.lock().unwrap().entry(format!("{reason:?}")).or_insert(0) += 1;
+                                }
+                                InflightNotification::TransferRetry { .. } => {
+                                    t.retries.fetch_add(1, Ordering::SeqCst);
+                                }
+                                InflightNotification::TransferUpdate { .. } => {}
+                            }
+                        }
+                        Err(tokio::sync::broadcast::error::RecvError::Lagged(_)) => t.lagged.store(true, Ordering::SeqCst),
+                        Err(_) => break,
+                    }
+                }
+            });
+        }
+        if let Some(r) = account.add_server(origin.clone()).await? {
+            if let Err(e) = r.result {
+                anyhow::bail!("{name}: initial sync failed: {e}");
+            }
+        }
+        Ok(Dev { name, account, target, tally, epoch })
+    }
+
+    fn files_dir(&self) -> PathBuf {
+        self.account.paths().into_files_dir()
+    }
+
+    async fn close(mut self) {
+        let _ = self.account.sign_out().await;
+        setup::close_target(self.target).await;
+    }
+
+    fn tally_text(&self) -> String {
+        format!(
+            "added={} done={} errors={} retries={} reasons={:?}",
+            self.tally.added.load(Ordering::SeqCst),
+            self.tally.done.load(Ordering::SeqCst),
+            self.tally.errors.load(Ordering::SeqCst),
+            self.tally.retries.load(Ordering::SeqCst),
+            self.tally.reasons.lock().unwrap()
+        )
+    }
+}
+
+#[derive(Debug, PartialEq)]
+enum Settle {
+    /// nothing in flight, every announced transfer finished, quiet, and `ok()` holds
+    Settled,
+    /// nothing in flight, every announced transfer finished, quiet for the long window, `ok()` does not hold
+    QuietButDiffers,
+    /// polls used up
+    OutOfPolls,
+}
+
+/// Bounded wait for the background transfers of `dev`.
+async fn settle(dev: &Dev, polls: usize, ok: &(dyn Fn() -> bool + Send + Sync)) -> Settle {
+    const STEP: u64 = 50;
+    const QUIET: u64 = 700;
+    const LONG_QUIET: u64 = 4000;
+    let inflight = match dev.account.inflight_transfers() {
+        Ok(i) => i,
+        Err(_) => return Settle::OutOfPolls,
+    };
+    let start = dev.epoch.elapsed().as_millis() as u64;
+    for _ in 0..polls {
+        tokio::time::sleep(Duration::from_millis(STEP)).await;
+        let now = dev.epoch.elapsed().as_millis() as u64;
+        let t = &dev.tally;
+        let idle = inflight.is_empty().await && t.added.load(Ordering::SeqCst) == t.done.load(Ordering::SeqCst) + t.errors.load(Ordering::SeqCst);
+        let last = t.last_ms.load(Ordering::SeqCst).max(start);
+        let quiet = now.saturating_sub(last);
+        if idle && quiet >= QUIET {
+            if ok() {
+                return Settle::Settled;
+            }
+            if quiet >= LONG_QUIET {
+                return Settle::QuietButDiffers;
+            }
+        }
+    }
+    Settle::OutOfPolls
+}
+
+// -------------------------------------------------------------------- model
+
+#[derive(Clone)]
+struct FileSecret {
+    folder: VaultId,
+    plain: Vec<u8>,
+}
+
+struct World {
+    server: TestServer,
+    account_id: AccountId,
+    d1: Dev,
+    d2: Dev,
+    folders: Vec<VaultId>,
+    default_folder: VaultId,
+    secrets: BTreeMap<SecretId, FileSecret>,
+    log: Vec<String>,
+    tmp: PathBuf,
+    max_bytes: usize,
+}
+
+fn opts(f: &VaultId) -> AccessOptions {
+    AccessOptions { folder: Some(*f), ..Default::default() }
+}
+
+fn make_plain(rng: &mut Rng, max: usize) -> Vec<u8> {
+    let n = match rng.below(8) {
+        0 => 0,
+        1 => rng.range(1, 64) as usize,
+        2 => rng.range(65_000, 66_500) as usize,
+        3 => max,
+        _ => rng.range(64, max as u64) as usize,
+    };
+    rng.bytes(n)
+}
+
+impl World {
+    fn ctx(&self, args: &Args, history: usize, server_db: bool, client: Backend) -> Value {
+        json!({"check": "c17", "seed": args.seed, "shard": format!("{}/{}", args.shard, args.shards), "tier": args.tier, "history": history, "server_backend": if server_db {"db"} else {"fs"}, "client_backend": client.name(), "ops": self.log})
+    }
+
+    fn server_files_dir(&self) -> PathBuf {
+        self.server.account_paths(&self.account_id).into_files_dir()
+    }
+
+    /// Blobs named by the live file secrets of the model, read through device 1.
+    async fn model_set(&self) -> Result<BTreeSet<Key>, String> {
+        let mut out = BTreeSet::new();
+        for (id, fs) in &self.secrets {
+            let (row, _) = self.d1.account.read_secret(id, Some(&fs.folder)).await.map_err(|e| format!("read_secret {id}: {e}"))?;
+            match row.secret() {
+                Secret::File { content: FileContent::External { checksum, .. }, .. } => {
+                    let name: ExternalFileName = (*checksum).into();
+                    out.insert((fs.folder.to_string(), id.to_string(), name.to_string()));
+                }
+                other => return Err(format!("file secret {id} reads back as {}", other.kind())),
+            }
+        }
+        Ok(out)
+    }
+
+    async fn one_op(&mut self, rng: &mut Rng) -> Result<&'static str, String> {
+        let ids: Vec<SecretId> = self.secrets.keys().copied().collect();
+        let extra_folders: Vec<VaultId> = self.folders.iter().copied().filter(|f| *f != self.default_folder).collect();
+        let choice = rng.weighted(&[30, if ids.is_empty() { 0 } else { 16 }, if ids.is_empty() || self.folders.len() < 2 { 0 } else { 16 }, if ids.is_empty() { 0 } else { 12 }, if extra_folders.is_empty() { 0 } else { 6 }, if self.folders.len() < 4 { 9 } else { 0 }]);
+        match choice {
+            0 => {
+                let f = *rng.pick(&self.folders);
+                let plain = make_plain(rng, self.max_bytes);
+                let path = self.tmp.join(format!("att-{}.bin", rng.token(10)));
+                std::fs::write(&path, &plain).map_err(|e| e.to_string())?;
+                let secret: Secret = path.clone().try_into().map_err(|e| format!("{e}"))?;
+                let meta = SecretMeta::new(format!("file {}", rng.token(6)), secret.kind());
+                let r = self.d1.account.create_secret(meta, secret, opts(&f)).await;
+                let _ = std::fs::remove_file(&path);
+                let ch = r.map_err(|e| format!("create_secret: {e}"))?;
+                self.log.push(format!("create file secret {} in {f} ({} bytes)", ch.id, plain.len()));
+                self.secrets.insert(ch.id, FileSecret { folder: f, plain });
+                Ok("create")
+            }
+            1 => {
+                let id = *rng.pick(&ids);
+                let f = self.secrets[&id].folder;
+                let plain = make_plain(rng, self.max_bytes);
+                let path = self.tmp.join(format!("att-{}.bin", rng.token(10)));
+                std::fs::write(&path, &plain).map_err(|e| e.to_string())?;
+                let (row, _) = self.d1.account.read_secret(&id, Some(&f)).await.map_err(|e| format!("read before update: {e}"))?;
+                let meta = row.meta().clone();
+                let r = self.d1.account.update_file(&id, meta, &path, opts(&f)).await;
+                let _ = std::fs::remove_file(&path);
+                let ch = r.map_err(|e| format!("update_file: {e}"))?;
+                self.log.push(format!("update_file {id} in {f} ({} bytes)", plain.len()));
+                if ch.id != id {
+                    self.secrets.remove(&id);
+                }
+                self.secrets.insert(ch.id, FileSecret { folder: f, plain });
+                Ok("update")
+            }
+            2 => {
+                let id = *rng.pick(&ids);
+                let from = self.secrets[&id].folder;
+                let others: Vec<VaultId> = self.folders.iter().copied().filter(|g| *g != from).collect();
+                let to = *rng.pick(&others);
+                let mv = self.d1.account.move_secret(&id, &from, &to, Default::default()).await.map_err(|e| format!("move_secret: {e}"))?;
+                self.log.push(format!("move {id} from {from} to {to} (new id {})", mv.id));
+                let mut fs = self.secrets.remove(&id).unwrap();
+                fs.folder = to;
+                self.secrets.insert(mv.id, fs);
+                Ok("move")
+            }
+            3 => {
+                let id = *rng.pick(&ids);
+                let f = self.secrets[&id].folder;
+                self.d1.account.delete_secret(&id, opts(&f)).await.map_err(|e| format!("delete_secret: {e}"))?;
+                self.log.push(format!("delete secret {id} in {f}"));
+                self.secrets.remove(&id);
+                Ok("delete_secret")
+            }
+            4 => {
+                let f = *rng.pick(&extra_folders);
+                self.d1.account.delete_folder(&f).await.map_err(|e| format!("delete_folder: {e}"))?;
+                let n = self.secrets.values().filter(|s| s.folder == f).count();
+                self.log.push(format!("delete folder {f} holding {n} file secret(s)"));
+                self.secrets.retain(|_, s| s.folder != f);
+                self.folders.retain(|g| *g != f);
+                Ok("delete_folder")
+            }
+            _ => {
+                let fc = self.d1.account.create_folder(NewFolderOptions::new(format!("folder {}", rng.token(5)))).await.map_err(|e| format!("create_folder: {e}"))?;
+                self.log.push(format!("create folder {}", fc.folder.id()));
+                self.folders.push(*fc.folder.id());
+                Ok("create_folder")
+            }
+        }
+    }
+
+    /// The invariant on the editing device, after every operation.
+    async fn check_device1(&self, rep: &mut Reporter, ctx: &Value) {
+        let from_log: BTreeSet<Key> = match self.d1.account.canonical_files().await {
+            Ok(s) => s.iter().map(key_of).collect(),
+            Err(e) => {
+                rep.violation("C17:file_log:device1:unreadable", &format!("canonical_files failed: {e}"), ctx.clone());
+                return;
+            }
+        };
+        let listing = list_blobs(&self.d1.files_dir());
+        judge_listing(rep, "device1", "file_log", &listing, &from_log, ctx, true);
+        judge_names(rep, "device1", &listing, ctx);
+        match self.model_set().await {
+            Ok(model) => {
+                if model != from_log {
+                    let only_log: Vec<&Key> = from_log.difference(&model).collect();
+                    let only_model: Vec<&Key> = model.difference(&from_log).collect();
+                    rep.violation("C17:file_log_vs_secrets:device1", &format!("replaying the file log names other blobs than the live file secrets do; only in log: {:?}; only in secrets: {:?}", &only_log[..only_log.len().min(4)], &only_model[..only_model.len().min(4)]), ctx.clone());
+                }
+                judge_listing(rep, "device1", "live_secrets", &listing, &model, ctx, true);
+            }
+            Err(e) => rep.violation("C17:secret_readback:device1", &e, ctx.clone()),
+        }
+        self.check_decrypt(rep, &self.d1, ctx).await;
+    }
+
+    async fn check_decrypt(&self, rep: &mut Reporter, dev: &Dev, ctx: &Value) {
+        for (id, fs) in &self.secrets {
+            let (row, _) = match dev.account.read_secret(id, Some(&fs.folder)).await {
+                Ok(r) => r,
+                Err(e) => {
+                    rep.violation(&format!("C17:secret_readback:{}", dev.name), &format!("read_secret {id}: {e}"), ctx.clone());
+                    continue;
+                }
+            };
+            let Secret::File { content: FileContent::External { checksum, .. }, .. } = row.secret() else { continue };
+            let name: ExternalFileName = (*checksum).into();
+            rep.count("decrypt_checks", 1);
+            match dev.account.download_file(&fs.folder, id, &name).await {
+                Ok(bytes) => {
+                    if bytes != fs.plain {
+                        rep.violation(&format!("C17:decrypt:{}:differs", dev.name), &format!("{}: blob of secret {id} decrypts to {} bytes that differ from the {} original bytes", dev.name, bytes.len(), fs.plain.len()), ctx.clone());
+                    }
+                }
+                Err(e) => rep.violation(&format!("C17:decrypt:{}:failed", dev.name), &format!("{}: download_file of secret {id}: {e}", dev.name), ctx.clone()),
+            }
+        }
+    }
+
+    /// Let transfers settle, then check the server and device 2.
+    async fn sync_point(&self, rep: &mut Reporter, ctx: &Value, polls: usize) {
+        rep.count("sync_points", 1);
+        let dbg = std::env::var("C17_DEBUG").is_ok();
+        if dbg {
+            eprintln!("DBG t={:.2} sync point", rep.elapsed_s());
+        }
+        // device 1 -> server
+        if let Some(e) = self.d1.account.sync().await.first_error() {
+            rep.inconclusive(&format!("device 1 sync failed: {e}"));
+            return;
+        }
+        let expected: BTreeSet<Key> = match self.d1.account.canonical_files().await {
+            Ok(s) => s.iter().map(key_of).collect(),
+            Err(_) => return,
+        };
+        let sdir = self.server_files_dir();
+        let exp = expected.clone();
+        let sdir2 = sdir.clone();
+        let ok = move || {
+            let l = list_blobs(&sdir2);
+            l.strays.is_empty() && l.blobs.keys().cloned().collect::<BTreeSet<_>>() == exp
+        };
+        let s = settle(&self.d1, polls, &ok).await;
+        rep.count(&format!("settle:device1:{s:?}"), 1);
+        if dbg {
+            eprintln!("DBG t={:.2} device1 settle {s:?} {}", rep.elapsed_s(), self.d1.tally_text());
+        }
+        let listing = list_blobs(&sdir);
+        match s {
+            Settle::OutOfPolls => {
+                rep.inconclusive(&format!("transfers of device 1 did not settle within the poll bound ({})", self.d1.tally_text()));
+                return;
+            }
+            Settle::Settled | Settle::QuietButDiffers => {
+                let mut c = ctx.clone();
+                c["transfers"] = json!(self.d1.tally_text());
+                judge_listing(rep, "server", "file_log", &listing, &expected, &c, true);
+                judge_names(rep, "server", &listing, &c);
+                // the server's own file log must name the same set
+                if let Some(acc) = { self.server.backend.read().await.accounts().read().await.get(&self.account_id).cloned() } {
+                    let acc = acc.read().await;
+                    if let Ok(files) = acc.canonical_files().await {
+                        let server_log: BTreeSet<Key> = files.iter().map(key_of).collect();
+                        if server_log != expected {
+                            rep.violation("C17:file_log:server_vs_device1:differs", "after a successful sync the server's file log replays to another set of files than device 1's", c.clone());
+                        }
+                    }
+                }
+            }
+        }
+        // server -> device 2
+        if let Some(e) = self.d2.account.sync().await.first_error() {
+            rep.inconclusive(&format!("device 2 sync failed: {e}"));
+            return;
+        }
+        let expected2: BTreeSet<Key> = match self.d2.account.canonical_files().await {
+            Ok(s) => s.iter().map(key_of).collect(),
+            Err(_) => return,
+        };
+        if expected2 != expected {
+            rep.violation("C17:file_log:device2_vs_device1:differs", "after both devices synced without error their file logs replay to different sets of files", ctx.clone());
+        }
+        let ddir = self.d2.files_dir();
+        let exp = expected2.clone();
+        let ddir2 = ddir.clone();
+        let ok2 = move || {
+            let l = list_blobs(&ddir2);
+            l.strays.is_empty() && l.blobs.keys().cloned().collect::<BTreeSet<_>>() == exp
+        };
+        let s = settle(&self.d2, polls, &ok2).await;
+        rep.count(&format!("settle:device2:{s:?}"), 1);
+        if dbg {
+            eprintln!("DBG t={:.2} device2 settle {s:?} {}", rep.elapsed_s(), self.d2.tally_text());
+        }
+        if s == Settle::OutOfPolls {
+            rep.inconclusive(&format!("transfers of device 2 did not settle within the poll bound ({})", self.d2.tally_text()));
+            return;
+        }
+        let listing = list_blobs(&ddir);
+        let mut c = ctx.clone();
+        c["transfers"] = json!(self.d2.tally_text());
+        let equal = judge_listing(rep, "device2", "file_log", &listing, &expected2, &c, true);
+        judge_names(rep, "device2", &listing, &c);
+        if equal {
+            self.check_decrypt(rep, &self.d2, &c).await;
+        }
+    }
+}
+
+// ----------------------------------------------------------- upload checks
+
+struct Signer<'a> {
+    id: AccountId,
+    signer: &'a sos_signer::ed25519::BoxedEd25519Signer,
+}
+
+async fn signed(s: &Signer<'_>, method: &str, path: &str, body: Option<Vec<u8>>) -> RawReq {
+    let bearer = http::bearer_for(s.signer, path.as_bytes()).await;
+    RawReq { method: method.into(), target: format!("{path}?connection_id=verif"), headers: vec![(http::ACCOUNT_HEADER.into(), s.id.to_string()), ("authorization".into(), format!("Bearer {bearer}"))], body }
+}
+
+fn leftovers(files_dir: &Path, vault: &VaultId, secret: &SecretId) -> Vec<String> {
+    let d = files_dir.join(vault.to_string()).join(secret.to_string());
+    std::fs::read_dir(&d).into_iter().flatten().flatten().map(|e| e.file_name().to_string_lossy().to_string()).collect()
+}
+
+async fn upload_checks(args: &Args, rep: &mut Reporter, rng: &mut Rng, w: &World, ctx: &Value) {
+    let client = http::raw_client();
+    let signer: sos_signer::ed25519::BoxedEd25519Signer = match w.d1.account.device_signer().await {
+        Ok(s) => s.into(),
+        Err(_) => return,
+    };
+    let s = Signer { id: w.account_id, signer: &signer };
+    let sdir = w.server_files_dir();
+    let vault = w.default_folder;
+    let sizes: Vec<usize> = if args.thorough() { vec![1, 300, 70_000, 400_000] } else { vec![300, 70_000] };
+    for size in sizes {
+        let good = rng.bytes(size);
+        let name = hex::encode(vkit::sha256(&good));
+        let variants: Vec<(&str, Vec<u8>)> = vec![
+            ("altered_body", {
+                let mut b = good.clone();
+                let i = rng.usize(b.len());
+                b[i] ^= 1 << rng.below(8);
+                b
+            }),
+            ("truncated_body", good[..good.len() - 1 - rng.usize(good.len().min(50))].to_vec()),
+            ("empty_body", vec![]),
+            ("extended_body", {
+                let mut b = good.clone();
+                let extra = 1 + rng.usize(20);
+                b.extend(rng.bytes(extra));
+                b
+            }),
+        ];
+        for (kind, body) in variants {
+            let secret = SecretId::new_v4();
+            let path = format!("{V1}/sync/file/{vault}/{secret}/{name}");
+            let mut h = Fnv::new();
+            h.str("upload").str(kind).u64(size as u64).bytes(&body[..body.len().min(64)]);
+            rep.case(h.finish(), true);
+            rep.count("upload_requests", 1);
+            let req = signed(&s, "PUT", &path, Some(body.clone())).await;
+            let mut c = ctx.clone();
+            c["upload"] = json!({"kind": kind, "size": size, "path": path});
+            match http::raw(&client, &w.server.url, &req, WAIT).await {
+                Ok(r) => {
+                    rep.count(&format!("upload:{kind}:status:{}", r.status), 1);
+                    if (200..300).contains(&r.status) {
+                        rep.violation(&format!("C17:upload:{kind}:accepted"), &format!("an upload whose bytes do not hash to the requested name was answered {}", r.status), c.clone());
+                    } else {
+                        rep.count("upload_refused", 1);
+                    }
+                }
+                Err(e) => {
+                    rep.inconclusive(&format!("upload ({kind}) got no answer: {e:?}"));
+                    continue;
+                }
+            }
+            let left = leftovers(&sdir, &vault, &secret);
+            if !left.is_empty() {
+                let clause = if left.iter().any(|n| n == &name) { "file_present_after_refusal" } else { "temp_file_left_behind" };
+                rep.violation(&format!("C17:upload:{kind}:{clause}"), &format!("after the refused upload the secret's directory on the server holds {left:?}"), c.clone());
+            }
+            // and the name is not served
+            let get = signed(&s, "GET", &path, None).await;
+            if let Ok(r) = http::raw(&client, &w.server.url, &get, WAIT).await {
+                if r.status == 200 {
+                    rep.violation(&format!("C17:upload:{kind}:served_after_refusal"), &format!("GET of the refused upload answers 200 with {} bytes", r.body.len()), c.clone());
+                }
+            }
+        }
+
+        // correct upload, paced by the harness, with concurrent readers
+        let secret = SecretId::new_v4();
+        let path = format!("{V1}/sync/file/{vault}/{secret}/{name}");
+        let mut c = ctx.clone();
+        c["upload"] = json!({"kind": "paced_valid", "size": size, "path": path});
+        let mut h = Fnv::new();
+        h.str("upload").str("paced_valid").u64(size as u64).bytes(&good[..good.len().min(64)]);
+        rep.case(h.finish(), true);
+        rep.count("upload_requests", 1);
+        let (tx, rx) = tokio::sync::mpsc::channel::<Result<Vec<u8>, std::io::Error>>(4);
+        let stream = futures::stream::unfold(rx, |mut rx| async move { rx.recv().await.map(|x| (x, rx)) });
+        let bearer = http::bearer_for(&signer, path.as_bytes()).await;
+        let url = format!("{}{}?connection_id=verif", w.server.url.as_str().trim_end_matches('/'), path);
+        let put = client.put(&url).header(http::ACCOUNT_HEADER, w.account_id.to_string()).header("authorization", format!("Bearer {bearer}")).body(reqwest::Body::wrap_stream(stream)).send();
+        let put = tokio::spawn(put);
+        let half = (good.len() / 2).max(1).min(good.len());
+        let _ = tx.send(Ok(good[..half].to_vec())).await;
+        // wait (bounded) until the server has started writing the temp file
+        let mut started = false;
+        for _ in 0..200 {
+            if leftovers(&sdir, &vault, &secret).iter().any(|n| n.ends_with(".upload")) {
+                started = true;
+                break;
+            }
+            tokio::time::sleep(Duration::from_millis(25)).await;
+        }
+        if started {
+            rep.count("paced_uploads_observed_in_flight", 1);
+            let get = signed(&s, "GET", &path, None).await;
+            match http::raw(&client, &w.server.url, &get, WAIT).await {
+                Ok(r) => {
+                    rep.count(&format!("get_during_upload:status:{}", r.status), 1);
+                    if r.status == 200 {
+                        rep.violation("C17:upload:in_flight:partial_file_served", &format!("GET during an unfinished upload answered 200 with {} of {} bytes", r.body.len(), good.len()), c.clone());
+                    }
+                }
+                Err(e) => rep.inconclusive(&format!("GET during upload got no answer: {e:?}")),
+            }
+            // the comparison must not offer the unfinished file for download
+            let cmp_path = format!("{V1}/sync/files");
+            let cmp = signed(&s, "POST", &cmp_path, Some(FileSet(Default::default()).encode().await.unwrap_or_default())).await;
+            if let Ok(r) = http::raw(&client, &w.server.url, &cmp, WAIT).await {
+                if r.status == 200 {
+                    if let Ok(set) = FileTransfersSet::decode(bytes::Bytes::from(r.body.clone())).await {
+                        rep.count("compare_during_upload", 1);
+                        if set.downloads.0.iter().any(|f| f.secret_id() == &secret) {
+                            rep.violation("C17:upload:in_flight:listed_by_compare_files", "the file comparison offers an unfinished upload for download", c.clone());
+                        }
+                    }
+                }
+            }
+            let names = leftovers(&sdir, &vault, &secret);
+            if names.iter().any(|n| n == &name) {
+                rep.violation("C17:upload:in_flight:final_name_present", "the final file name exists on the server before the upload finished", c.clone());
+            }
+        } else {
+            rep.count("paced_uploads_not_observed_in_flight", 1);
+        }
+        let _ = tx.send(Ok(good[half..].to_vec())).await;
+        drop(tx);
+        match tokio::time::timeout(WAIT, put).await {
+            Ok(Ok(Ok(r))) => {
+                let st = r.status().as_u16();
+                rep.count(&format!("upload:valid:status:{st}"), 1);
+                if st != 200 {
+                    rep.violation("C17:upload:valid_body:refused", &format!("a correct upload was answered {st}"), c.clone());
+                } else {
+                    match std::fs::read(sdir.join(vault.to_string()).join(secret.to_string()).join(&name)) {
+                        Ok(b) if b == good => rep.count("upload_valid_stored", 1),
+                        Ok(b) => rep.violation("C17:upload:valid_body:stored_bytes_differ", &format!("stored {} bytes, sent {}", b.len(), good.len()), c.clone()),
+                        Err(e) => rep.violation("C17:upload:valid_body:not_stored", &format!("answered 200 but the file is not there: {e}"), c.clone()),
+                    }
+                    let left = leftovers(&sdir, &vault, &secret);
+                    if left.iter().any(|n| n.ends_with(".upload")) {
+                        rep.violation("C17:upload:valid_body:temp_file_left_behind", &format!("{left:?}"), c.clone());
+                    }
+                    let get = signed(&s, "GET", &path, None).await;
+                    if let Ok(r) = http::raw(&client, &w.server.url, &get, WAIT).await {
+                        if r.status != 200 || r.body != good {
+                            rep.violation("C17:upload:valid_body:download_differs", &format!("GET after upload: status {} with {} bytes", r.status, r.body.len()), c.clone());
+                        }
+                    }
+                }
+            }
+            Ok(Ok(Err(e))) => rep.inconclusive(&format!("paced upload failed on the client side: {e}")),
+            _ => rep.inconclusive("paced upload not answered within the bounded wait"),
+        }
+
+        // aborted upload: half the body, then the client goes away
+        let secret = SecretId::new_v4();
+        let path = format!("{V1}/sync/file/{vault}/{secret}/{name}");
+        let mut c = ctx.clone();
+        c["upload"] = json!({"kind": "aborted", "size": size, "path": path});
+        rep.count("upload_requests", 1);
+        let mut h = Fnv::new();
+        h.str("upload").str("aborted").u64(size as u64).bytes(&good[..good.len().min(64)]);
+        rep.case(h.finish(), true);
+        let (tx, rx) = tokio::sync::mpsc::channel::<Result<Vec<u8>, std::io::Error>>(4);
+        let stream = futures::stream::unfold(rx, |mut rx| async move { rx.recv().await.map(|x| (x, rx)) });
+        let bearer = http::bearer_for(&signer, path.as_bytes()).await;
+        let url = format!("{}{}?connection_id=verif", w.server.url.as_str().trim_end_matches('/'), path);
+        let abort_client = http::raw_client();
+        let put = tokio::spawn(abort_client.put(&url).header(http::ACCOUNT_HEADER, w.account_id.to_string()).header("authorization", format!("Bearer {bearer}")).body(reqwest::Body::wrap_stream(stream)).send());
+        let _ = tx.send(Ok(good[..half].to_vec())).await;
+        let mut started = false;
+        for _ in 0..200 {
+            if leftovers(&sdir, &vault, &secret).iter().any(|n| n.ends_with(".upload")) {
+                started = true;
+                break;
+            }
+            tokio::time::sleep(Duration::from_millis(25)).await;
+        }
+        let _ = tx.send(Err(std::io::Error::new(std::io::ErrorKind::Other, "client gone"))).await;
+        drop(tx);
+        put.abort();
+        let _ = put.await;
+        if started {
+            // the per-file lock is released when the first handler has returned:
+            // only then is the directory judged (no wall-clock oracle)
+            let mut released = false;
+            for _ in 0..200 {
+                let get = signed(&s, "GET", &path, None).await;
+                match http::raw(&client, &w.server.url, &get, WAIT).await {
+                    Ok(r) if r.status == 409 => tokio::time::sleep(Duration::from_millis(25)).await,
+                    Ok(r) => {
+                        released = true;
+                        if r.status == 200 {
+                            rep.violation("C17:upload:aborted:partial_file_served", &format!("after an aborted upload GET answers 200 with {} bytes", r.body.len()), c.clone());
+                        }
+                        break;
+                    }
+                    Err(_) => break,
+                }
+            }
+            if released {
+                rep.count("aborted_uploads_checked", 1);
+                let left = leftovers(&sdir, &vault, &secret);
+                if !left.is_empty() {
+                    rep.violation("C17:upload:aborted:file_left_behind", &format!("after an aborted upload the server keeps {left:?}"), c.clone());
+                }
+            } else {
+                rep.inconclusive("the file lock of an aborted upload was not released within the poll bound");
+            }
+        }
+    }
+}
+
+// --------------------------------------------------------------------- run
+
+async fn history(args: &Args, rep: &mut Reporter, rng: &mut Rng, base: &Path, p: &Pristine, hix: usize, server_db: bool) -> anyhow::Result<()> {
+    let dir = base.join(format!("h{hix}"));
+    let _ = std::fs::remove_dir_all(&dir);
+    std::fs::create_dir_all(&dir)?;
+    let server = TestServer::start(&dir.join("server"), &Access::none(), server_db).await?;
+    let d1 = Dev::open("device1", p, &dir.join("device1"), &server.origin).await?;
+    let d2 = Dev::open("device2", p, &dir.join("device2"), &server.origin).await?;
+    let default_folder = *d1.account.default_folder().await.ok_or_else(|| anyhow::anyhow!("no default folder"))?.id();
+    let tmp = dir.join("tmp");
+    std::fs::create_dir_all(&tmp)?;
+    let mut w = World { server, account_id: p.account_id, d1, d2, folders: vec![default_folder], default_folder, secrets: BTreeMap::new(), log: vec![], tmp, max_bytes: args.by_tier(200_000, 2_000_000) };
+    let n_ops = args.by_tier(10usize, 24usize);
+    let polls = args.by_tier(400usize, 1200usize);
+    let mut kinds: BTreeSet<&'static str> = BTreeSet::new();
+    for step in 0..n_ops {
+        let kind = match w.one_op(rng).await {
+            Ok(k) => k,
+            Err(e) => {
+                let ctx = w.ctx(args, hix, server_db, p.config.backend);
+                rep.violation("C17:operation_failed:device1", &format!("a legal file-secret operation failed: {e}"), ctx);
+                break;
+            }
+        };
+        kinds.insert(kind);
+        if std::env::var("C17_DEBUG").is_ok() {
+            eprintln!("DBG t={:.2} op {kind}: {}", rep.elapsed_s(), w.log.last().cloned().unwrap_or_default());
+        }
+        rep.count(&format!("op:{kind}"), 1);
+        let ctx = w.ctx(args, hix, server_db, p.config.backend);
+        let mut h = Fnv::new();
+        h.str(kind).u64(w.secrets.len() as u64).u64(w.folders.len() as u64).u64(w.secrets.values().map(|s| s.plain.len() as u64).sum());
+        for l in &w.log {
+            h.u64(l.len() as u64);
+        }
+        rep.case(h.finish(), !w.secrets.is_empty() || kind != "create_folder");
+        w.check_device1(rep, &ctx).await;
+        if step + 1 < n_ops && rng.chance(1, 4) {
+            w.sync_point(rep, &ctx, polls).await;
+        }
+    }
+    let ctx = w.ctx(args, hix, server_db, p.config.backend);
+    w.sync_point(rep, &ctx, polls).await;
+    rep.max("op_kinds_in_a_history", kinds.len() as u64);
+    if std::env::var("C17_DEBUG").is_ok() {
+        eprintln!("DBG t={:.2} upload checks", rep.elapsed_s());
+    }
+    upload_checks(args, rep, rng, &w, &ctx).await;
+    if std::env::var("C17_DEBUG").is_ok() {
+        eprintln!("DBG t={:.2} history done", rep.elapsed_s());
+    }
+    if w.server.died() {
+        rep.violation("C17:server_task_ended", "the server task ended during the history", ctx.clone());
+    }
+    let World { server, d1, d2, .. } = w;
+    d1.close().await;
+    d2.close().await;
+    server.shutdown().await;
+    let _ = std::fs::remove_dir_all(&dir);
+    Ok(())
+}
+
+pub async fn run(args: &Args, rep: &mut Reporter) {
+    http::install_panic_watch();
+    let mut rng = Rng::new(args.shard_seed() ^ 0xC17);
+    let base = args.dir.join(format!("c17-s{}-{}of{}", args.seed, args.shard, args.shards));
+    let _ = std::fs::remove_dir_all(&base);
+    if let Err(e) = std::fs::create_dir_all(&base) {
+        rep.inconclusive(&format!("cannot create scratch dir: {e}"));
+        return;
+    }
+    let budget = if args.budget_s > 0 { args.budget_s as f64 } else { args.by_tier(70.0, 780.0) };
+    let max_histories = args.by_tier(6usize, 400usize);
+    let client_backends: Vec<Backend> = if args.thorough() { vec![Backend::Fs, Backend::Db] } else { vec![Backend::Fs] };
+    let mut pristines = vec![];
+    for (i, b) in client_backends.iter().enumerate() {
+        match http::pristine(&base.join(format!("pristine-{i}")), *b, &mut rng).await {
+            Ok(p) => pristines.push(p),
+            Err(e) => rep.inconclusive(&format!("account creation failed: {e}")),
+        }
+    }
+    if pristines.is_empty() {
+        return;
+    }
+    let panics0 = http::panics_seen();
+    let mut durations: Vec<f64> = vec![];
+    for hix in 0..max_histories {
+        let longest = durations.iter().cloned().fold(0.0, f64::max);
+        if rep.elapsed_s() + longest * 1.2 > budget && hix > 0 {
+            break;
+        }
+        let t0 = rep.elapsed_s();
+        let p = &pristines[hix % pristines.len()];
+        let server_db = args.thorough() && (hix / pristines.len()) % 2 == 1;
+        let mut hrng = rng.fork(hix as u64);
+        if let Err(e) = history(args, rep, &mut hrng, &base, p, hix, server_db).await {
+            rep.inconclusive(&format!("history {hix} could not be set up: {e}"));
+        }
+        rep.count("histories", 1);
+        durations.push(rep.elapsed_s() - t0);
+    }
+    for p in http::panics_since(panics0) {
+        rep.count("panics_observed_in_process", 1);
+        rep.sample(json!({"panic": p}));
+    }
+    let _ = std::fs::remove_dir_all(&base);
 }
